@@ -194,6 +194,12 @@ func genericKey(a Atom) (string, bool, bool) {
 		if k, ok := boolValueKey(a.X); ok {
 			return k, a.Neg, true
 		}
+		// a bool parameter of the function: $name
+		if prm, isP := canon(a.X).(*ssa.Parameter); isP {
+			if b, isB := prm.Type().Underlying().(*types.Basic); isB && b.Kind() == types.Bool {
+				return "$" + prm.Name(), a.Neg, true
+			}
+		}
 	case token.EQL, token.NEQ:
 		x, y := a.X, a.Y
 		if isConstVal(x) {
